@@ -47,9 +47,20 @@ def cfg_snapshot(c):
 
 
 class World(object):
+    pooled = False
+
+    def settle(self):
+        """waits until the notification pool (if any) has run what it was given"""
+        if self.pooled:
+            pool = getattr(self.d, "_SimpleJSONRPCDispatcher__notification_pool", None)
+            try:
+                pool.join(5)
+            except BaseException:  # noqa
+                pass
+
     """A dispatcher with a registry of recorder callables; calls[j] counts body executions attributed to alias j."""
 
-    def __init__(self, sv, rnd):
+    def __init__(self, sv, rnd, allow_pool=True, allow_default=False):
         self.calls = {}
         self.cfg = jsonrpclib.config.Config(version=rnd.choice([1.0, 1]) if sv == "1" else rnd.choice([2.0, 2.0, 2]))
         if rnd.random() < 0.5:
@@ -59,6 +70,30 @@ class World(object):
                 raise TypeError("cannot serialise this")
             self.cfg.serialize_handlers[Unconvertible] = refusing
         self.d = SimpleJSONRPCDispatcher(config=self.cfg)
+        if allow_default and sv == "2" and jsonrpclib.config.DEFAULT.version == 2.0 and rnd.random() < 0.15:
+            # a dispatcher left with the process-wide default configuration, in a process where clients are built as
+            # well (no request is sent): whatever a client is constructed with stays its own business
+            from jsonrpclib import jsonrpc as _client
+            self.cfg = jsonrpclib.config.DEFAULT
+            self.d = SimpleJSONRPCDispatcher()
+            for v in (rnd.choice(["2.0", 2, 2.0]), rnd.choice([2.0, "2.0"])):
+                try:
+                    _client.ServerProxy("http://127.0.0.1:9/", version=v)
+                    _client.ServerProxy("http://127.0.0.1:9/", version=v, config=self.cfg)
+                except BaseException:  # noqa
+                    pass
+        self.pooled = rnd.random() < 0.06 and allow_pool
+        if self.pooled:
+            # notifications handed to a pool that only the dispatcher refers to (built by a factory, as a server's
+            # constructor would): they are executed all the same, and nothing is answered
+            def attach(d):
+                from jsonrpclib.threadpool import ThreadPool
+                pool = ThreadPool(2, 0, timeout=0.05, logname="verif-notif")
+                pool.start()
+                d.set_notification_pool(pool)
+            attach(self.d)
+            import gc
+            gc.collect()
         self.cfg0 = cfg_snapshot(self.cfg)
         self.default0 = cfg_snapshot(jsonrpclib.config.DEFAULT)
         self.excinfo = {}
@@ -243,7 +278,7 @@ def has_jsonclass(v):
 def run_body(text, sv, dk, rnd, src, world=None, jc=None, pre=None, foreign=None):
     """jc: None (payload free of __jsonclass__), "reject" (the class translator must reject the payload: -32700, nothing
     runs) or "ok" (descriptors of side-effect-free classes only: judged for C02 only)."""
-    world = world or World(sv, rnd)
+    world = world or World(sv, rnd, allow_default=True)
     bk, top, entries = analyse(text)
     if bk == "outside" or (jc is None and top is not None and has_jsonclass(top)):
         return None
@@ -284,6 +319,7 @@ def run_body(text, sv, dk, rnd, src, world=None, jc=None, pre=None, foreign=None
     except BaseException as e:  # noqa
         out.update(raised=True, exc="%s: %s" % (type(e).__name__, str(e)[:100]))
         res = None
+    world.settle()
     ents = []
     for ent in entries:
         mc = "-"
@@ -400,10 +436,11 @@ def gen_hist(n, rnd):
     recs = []
     for _ in range(n):
         sv, dk = rnd.choice("12"), rnd.choice(["default", "default", "custom"])
-        world = World(sv, rnd)
+        world = World(sv, rnd, allow_pool=False)      # (executions are attributed per thread here: no third party runs them)
         if rnd.random() < 0.3:
             world.cfg = world.d.json_config = jsonrpclib.config.DEFAULT if sv == "2" else world.cfg
             world.cfg0 = cfg_snapshot(world.cfg)
+        earlier = []
         for _step in range(rnd.randint(2, 5)):
             if rnd.random() < 0.25:
                 # a request whose id is a bean (the reply cannot be converted: the fall-back error path), valid or not,
@@ -417,6 +454,13 @@ def gen_hist(n, rnd):
                 continue
             m = rnd.choice([0, 0, 0, 1, 2, 3])
             ents = [make_entry(random_entry_class(rnd), j + 1, rnd) for j in range(max(1, m))]
+            again = [e for e in earlier if isinstance(e, dict) and "id" in e]
+            if again and rnd.random() < 0.35:
+                # the request of an earlier step of this history once more, under another id
+                e2 = dict(rnd.choice(again))
+                e2["id"] = rnd.choice([0, 7, "again", 2.5, [1, 2], {"a": 1}, False, -1])
+                ents[rnd.randrange(len(ents))] = e2
+            earlier.extend(ents)
             text = dumps(ents[0] if m == 0 else ents, rnd)
             if rnd.random() < 0.08:
                 text = text[:rnd.randint(0, len(text))]
@@ -434,7 +478,7 @@ def gen_interleaved(n, rnd, limit):
     valid = ["ok", "ok", "raise", "unknown", "inst_pub", "inst_nested", "retfault", "convfail"]
     for _ in range(n):
         sv, dk = rnd.choice("12"), rnd.choice(["default", "default", "custom"])
-        world = World(sv, rnd)
+        world = World(sv, rnd, allow_pool=False)      # (executions are attributed per thread here: no third party runs them)
         if rnd.random() < 0.3 and sv == "2":
             world.cfg = world.d.json_config = jsonrpclib.config.DEFAULT
             world.cfg0 = cfg_snapshot(world.cfg)
